@@ -606,7 +606,11 @@ def _run_neg(case, mon, viol):
                                            f'server={s}'})
                 elif not completed:
                     mon['disjoint_rejected'] += 1
-                    if type(res).__name__ != 'KeyExchangeFailed':
+                    # (ConnectionLost: the peer's DISCONNECT was still in
+                    # flight when it aborted its transport - the handshake
+                    # failed, which is all the property asks)
+                    if type(res).__name__ not in ('KeyExchangeFailed',
+                                                  'ConnectionLost'):
                         viol.append({'mechanism': 'negotiation_error_class',
                                      'detail': repr(res)})
                 else:
